@@ -768,22 +768,295 @@ theorem catches_value_value : catches "ValueError" (toStringLossy (ofString "Val
 theorem ite_bind_same {α β : Type} (c : Prop) [Decidable c] (a b : M α) (f : α → M β) :
     (if c then a >>= f else b >>= f) = (if c then a else b) >>= f := by split <;> rfl
 
-set_option maxHeartbeats 1000000 in
-/-- **Partial** version of `parse_email = Email.parseEmail` (the restrictions are on the class of documents, nothing about the
-translated code is assumed): for `str` and for `bytes` input, every oracle `ext` that answers the parser call with a message
-presenting `doc` and answers `str.lower` on header names like the ASCII `lowerStr`,
 
-* `StrOnly doc`: every header value is a `str` (no `email.header.Header` objects, hence no `decode_header` error),
+/-! ## `Header` objects and `decode_header` errors -/
 
-the translated function returns dicts that agree look-up by look-up with the model's result for the visiting order
-`orderOf doc` (a permutation of the distinct header names, `orderOf_perm`), or raises the same class. -/
-theorem parse_email_eq_model_partial (ext : PyRt.Oracle) (data m : PyVal) (doc : Doc) (isStr : Bool)
+/-- the class `decode_header` raises for this header value -/
+def errCls : HVal → Option Str
+  | .err c => some c
+  | _ => none
+
+/-- the chunks of a `Header` value are bytes -/
+def HValOK : HVal → Prop
+  | .hdr cs => ∀ b ∈ cs, ∀ x ∈ b, x < 256
+  | _ => True
+
+/-- the pair `(bin, encoding)` the chunk loop appends -/
+def encChunk (b : List Nat) : PyVal :=
+  .tuple [PyElf.ofBytes b, .str (if (decodeChunk b).2 then ofString "utf8" else ofString "latin1")]
+
+theorem latin1_ne_utf8 : (ofString "latin1" == ofString "utf8") = false := by decide
+
+theorem chunkText_encChunk (b : List Nat) (hb : ∀ x ∈ b, x < 256) : chunkText (encChunk b) = .ok (decodeChunk b) := by
+  cases h : utf8Decode b with
+  | some s => simp [encChunk, chunkText, PyElf.bytesOf_ofBytes b hb, decodeChunk, h]
+  | none => simp [encChunk, chunkText, PyElf.bytesOf_ofBytes b hb, decodeChunk, h, latin1_ne_utf8]
+
+theorem mapM_chunkText (l : List (List Nat)) (hl : ∀ b ∈ l, ∀ x ∈ b, x < 256) :
+    (l.map encChunk).mapM chunkText = .ok (l.map decodeChunk) := by
+  induction l with
+  | nil => rfl
+  | cons b bs ih =>
+    simp only [List.map_cons, List.mapM_cons, chunkText_encChunk b (hl b (List.mem_cons_self ..)), ok_bind,
+      ih (fun y hy => hl y (List.mem_cons_of_mem _ hy)), pure_ok]
+
+/-- `str(make_header(chunks))` on the chunks the loop collected -/
+theorem make_header_str_enc (l : List (List Nat)) (hl : ∀ b ∈ l, ∀ x ∈ b, x < 256) :
+    make_header_str (.list (l.map encChunk)) = .ok (.str (renderChunks (l.map decodeChunk))) := by
+  simp only [make_header_str, iterate_list, ok_bind, mapM_chunkText l hl, pure_ok]
+
+/-- the chunk loop: every iteration appends `(bin, "utf8" | "latin1")` and updates `valid_encoding` -/
+theorem chunk_forIn {σ : Type} (pvalid pchunks : σ → PyVal) (body : PyVal → σ → M (ForInStep σ))
+    (hstep : ∀ (b : List Nat) (s : σ) (cs : List PyVal) (ok : Bool), (∀ x ∈ b, x < 256) → pvalid s = .bool ok → pchunks s = .list cs →
+      ∃ s', body (.tuple [PyElf.ofBytes b, .none]) s = .ok (.yield s') ∧ pvalid s' = .bool (ok && (decodeChunk b).2) ∧
+        pchunks s' = .list (cs ++ [encChunk b])) :
+    ∀ (l : List (List Nat)) (s : σ) (cs : List PyVal) (ok : Bool), (∀ b ∈ l, ∀ x ∈ b, x < 256) → pvalid s = .bool ok →
+      pchunks s = .list cs →
+      ∃ s', forIn (l.map fun b => PyVal.tuple [PyElf.ofBytes b, .none]) s body = .ok s' ∧
+        pvalid s' = .bool (ok && (l.map decodeChunk).all (·.2)) ∧ pchunks s' = .list (cs ++ l.map encChunk) := by
+  intro l
+  induction l with
+  | nil => intro s cs ok _ h1 h2; exact ⟨s, rfl, by simpa using h1, by simpa using h2⟩
+  | cons b bs ih =>
+    intro s cs ok hl h1 h2
+    obtain ⟨s1, hb, h3, h4⟩ := hstep b s cs ok (hl b (List.mem_cons_self ..)) h1 h2
+    obtain ⟨s2, hf, h5, h6⟩ := ih s1 _ _ (fun y hy => hl y (List.mem_cons_of_mem _ hy)) h3 h4
+    refine ⟨s2, ?_, ?_, ?_⟩
+    · simp only [List.map_cons, List.forIn_cons, hb, ok_bind, hf]
+    · simpa [Bool.and_assoc] using h5
+    · simpa [List.append_assoc] using h6
+
+theorem chunk_forIn_bind {σ τ : Type} (pvalid pchunks : σ → PyVal) (body : PyVal → σ → M (ForInStep σ)) (k : σ → M τ)
+    (Post : M τ → Prop) (l : List (List Nat)) (s : σ) (ok : Bool)
+    (hstep : ∀ (b : List Nat) (s : σ) (cs : List PyVal) (ok : Bool), (∀ x ∈ b, x < 256) → pvalid s = .bool ok → pchunks s = .list cs →
+      ∃ s', body (.tuple [PyElf.ofBytes b, .none]) s = .ok (.yield s') ∧ pvalid s' = .bool (ok && (decodeChunk b).2) ∧
+        pchunks s' = .list (cs ++ [encChunk b]))
+    (hl : ∀ b ∈ l, ∀ x ∈ b, x < 256) (h1 : pvalid s = .bool ok) (h2 : pchunks s = .list [])
+    (hk : ∀ s', pvalid s' = .bool (ok && (l.map decodeChunk).all (·.2)) → pchunks s' = .list (l.map encChunk) → Post (k s')) :
+    Post (forIn (l.map fun b => PyVal.tuple [PyElf.ofBytes b, .none]) s body >>= k) := by
+  obtain ⟨s', hf, h3, h4⟩ := chunk_forIn pvalid pchunks body hstep l s [] ok hl h1 h2
+  rw [hf, ok_bind]
+  exact hk s' h3 (by simpa using h4)
+
+/-- `for h in headers` with `decode_header` errors: the first `HeaderErr` value raises its class -/
+theorem inner_forIn_err {σ : Type} (pval pvalid : σ → PyVal) (body : PyVal → σ → M (ForInStep σ)) (P : HVal → Prop)
+    (hstep : ∀ (hv : HVal) (s : σ) (vs : List Str) (ok : Bool), P hv → pval s = .list (vs.map .str) → pvalid s = .bool ok →
+      match errCls hv with
+      | some c => body (encHVal hv) s = .error (toStringLossy c)
+      | none => ∃ s', body (encHVal hv) s = .ok (.yield s') ∧ pval s' = .list ((vs ++ [(decodeVal hv).1]).map .str) ∧
+        pvalid s' = .bool (ok && (decodeVal hv).2)) :
+    ∀ (l : List HVal) (s : σ) (vs : List Str) (ok : Bool), (∀ hv ∈ l, P hv) → pval s = .list (vs.map .str) → pvalid s = .bool ok →
+      match l.findSome? errCls with
+      | some c => forIn (l.map encHVal) s body = .error (toStringLossy c)
+      | none => ∃ s', forIn (l.map encHVal) s body = .ok s' ∧ pval s' = .list ((vs ++ l.map fun h => (decodeVal h).1).map .str) ∧
+        pvalid s' = .bool (ok && l.all fun h => (decodeVal h).2) := by
+  intro l
+  induction l with
+  | nil => intro s vs ok _ h1 h2; exact ⟨s, rfl, by simpa using h1, by simpa using h2⟩
+  | cons x xs ih =>
+    intro s vs ok hP h1 h2
+    have hx := hstep x s vs ok (hP x (List.mem_cons_self ..)) h1 h2
+    simp only [List.findSome?_cons]
+    cases he : errCls x with
+    | some c =>
+      simp only [he] at hx ⊢
+      simp only [List.map_cons, List.forIn_cons, hx, err_bind]
+    | none =>
+      simp only [he] at hx ⊢
+      obtain ⟨s1, hb, h3, h4⟩ := hx
+      have := ih s1 _ _ (fun y hy => hP y (List.mem_cons_of_mem _ hy)) h3 h4
+      cases hf : xs.findSome? errCls with
+      | some c =>
+        simp only [hf] at this ⊢
+        simp only [List.map_cons, List.forIn_cons, hb, ok_bind, this]
+      | none =>
+        simp only [hf] at this ⊢
+        obtain ⟨s2, hf2, h5, h6⟩ := this
+        refine ⟨s2, ?_, ?_, ?_⟩
+        · simp only [List.map_cons, List.forIn_cons, hb, ok_bind, hf2]
+        · simpa [List.append_assoc] using h5
+        · simpa [Bool.and_assoc] using h6
+
+theorem inner_forIn_err_bind {σ τ : Type} (pval pvalid : σ → PyVal) (body : PyVal → σ → M (ForInStep σ)) (k : σ → M τ)
+    (P : HVal → Prop) (Post : M τ → Prop) (l : List HVal) (s : σ)
+    (hstep : ∀ (hv : HVal) (s : σ) (vs : List Str) (ok : Bool), P hv → pval s = .list (vs.map .str) → pvalid s = .bool ok →
+      match errCls hv with
+      | some c => body (encHVal hv) s = .error (toStringLossy c)
+      | none => ∃ s', body (encHVal hv) s = .ok (.yield s') ∧ pval s' = .list ((vs ++ [(decodeVal hv).1]).map .str) ∧
+        pvalid s' = .bool (ok && (decodeVal hv).2))
+    (hP : ∀ hv ∈ l, P hv) (h1 : pval s = .list []) (h2 : pvalid s = .bool true)
+    (herr : ∀ c, l.findSome? errCls = some c → Post (.error (toStringLossy c)))
+    (hk : l.findSome? errCls = none → ∀ s', pval s' = .list ((l.map fun h => (decodeVal h).1).map .str) →
+      pvalid s' = .bool (l.all fun h => (decodeVal h).2) → Post (k s')) :
+    Post (forIn (l.map encHVal) s body >>= k) := by
+  have := inner_forIn_err pval pvalid body P hstep l s [] true hP h1 h2
+  cases hf : l.findSome? errCls with
+  | some c =>
+    simp only [hf] at this
+    rw [this, err_bind]
+    exact herr c hf
+  | none =>
+    simp only [hf] at this
+    obtain ⟨s', hf', h3, h4⟩ := this
+    rw [hf', ok_bind]
+    exact hk hf s' (by simpa using h3) (by simpa using h4)
+
+/-- the loop over the header names; an iteration whose headers contain a `HeaderErr` value raises `c0` -/
+theorem outer_forIn_err {σ : Type} (praw punp : σ → PyVal) (body : PyVal → σ → M (ForInStep σ)) (doc : Doc) (c0 : PyExc)
+    (hstep : ∀ (n : Str) (s : σ) (acc : Dict × Unparsed), n ∈ doc.names → StRel praw punp s acc →
+      if (getAll doc (lowerStr n)).findSome? errCls = none then
+        ∃ s', body (.str n) s = .ok (.yield s') ∧ StRel praw punp s' (step doc acc n)
+      else body (.str n) s = .error c0) :
+    ∀ (l : List Str) (s : σ) (acc : Dict × Unparsed), (∀ n ∈ l, n ∈ doc.names) → StRel praw punp s acc →
+      if ∀ n ∈ l, (getAll doc (lowerStr n)).findSome? errCls = none then
+        ∃ s', forIn (l.map .str) s body = .ok s' ∧ StRel praw punp s' (l.foldl (step doc) acc)
+      else forIn (l.map .str) s body = .error c0 := by
+  intro l
+  induction l with
+  | nil => intro s acc _ h; simp only [List.not_mem_nil, false_imp_iff, implies_true, if_true]; exact ⟨s, rfl, h⟩
+  | cons x xs ih =>
+    intro s acc hl h
+    have hx := hstep x s acc (hl x (List.mem_cons_self ..)) h
+    by_cases hxe : (getAll doc (lowerStr x)).findSome? errCls = none
+    · simp only [hxe, if_true] at hx
+      obtain ⟨s1, hb, h1⟩ := hx
+      have := ih s1 _ (fun y hy => hl y (List.mem_cons_of_mem _ hy)) h1
+      by_cases hall : ∀ n ∈ xs, (getAll doc (lowerStr n)).findSome? errCls = none
+      · have hall' : ∀ n ∈ x :: xs, (getAll doc (lowerStr n)).findSome? errCls = none := by
+          intro n hn; rcases List.mem_cons.mp hn with rfl | hn; exact hxe; exact hall n hn
+        rw [if_pos hall] at this
+        rw [if_pos hall']
+        obtain ⟨s2, hf, h2⟩ := this
+        exact ⟨s2, by simp only [List.map_cons, List.forIn_cons, hb, ok_bind, hf], h2⟩
+      · have hall' : ¬ ∀ n ∈ x :: xs, (getAll doc (lowerStr n)).findSome? errCls = none :=
+          fun h' => hall (fun n hn => h' n (List.mem_cons_of_mem _ hn))
+        rw [if_neg hall] at this
+        rw [if_neg hall']
+        simp only [List.map_cons, List.forIn_cons, hb, ok_bind, this]
+    · simp only [hxe, if_false] at hx
+      have hall' : ¬ ∀ n ∈ x :: xs, (getAll doc (lowerStr n)).findSome? errCls = none :=
+        fun h' => hxe (h' x (List.mem_cons_self ..))
+      rw [if_neg hall']
+      simp only [List.map_cons, List.forIn_cons, hx, err_bind]
+
+theorem outer_forIn_err_bind {σ : Type} (praw punp : σ → PyVal) (body : PyVal → σ → M (ForInStep σ)) (k : σ → M PyVal) (doc : Doc)
+    (c0 : PyExc) (Post : M PyVal → Prop) (l : List Str) (s : σ) (acc : Dict × Unparsed)
+    (hstep : ∀ (n : Str) (s : σ) (acc : Dict × Unparsed), n ∈ doc.names → StRel praw punp s acc →
+      if (getAll doc (lowerStr n)).findSome? errCls = none then
+        ∃ s', body (.str n) s = .ok (.yield s') ∧ StRel praw punp s' (step doc acc n)
+      else body (.str n) s = .error c0)
+    (hl : ∀ n ∈ l, n ∈ doc.names) (hs : StRel praw punp s acc)
+    (herr : (¬ ∀ n ∈ l, (getAll doc (lowerStr n)).findSome? errCls = none) → Post (.error c0))
+    (hk : (∀ n ∈ l, (getAll doc (lowerStr n)).findSome? errCls = none) →
+      ∀ s', StRel praw punp s' (l.foldl (step doc) acc) → Post (k s')) :
+    Post (forIn (l.map .str) s body >>= k) := by
+  have := outer_forIn_err praw punp body doc c0 hstep l s acc hl hs
+  by_cases hall : ∀ n ∈ l, (getAll doc (lowerStr n)).findSome? errCls = none
+  · rw [if_pos hall] at this
+    obtain ⟨s', hf, h⟩ := this
+    rw [hf, ok_bind]
+    exact hk hall s' h
+  · rw [if_neg hall] at this
+    rw [this, err_bind]
+    exact herr hall
+
+
+/-- the locals of the outer loop of `parse_email` -/
+abbrev St9 := PyVal × PyVal × PyVal × PyVal × PyVal × PyVal × PyVal × PyVal × PyVal
+
+/-- the locals of the loop over the values of one header name -/
+abbrev St4 := PyVal × PyVal × PyVal × PyVal
+
+/-- all `decode_header` failures in the document raise the same class (the model raises the first one in document order, the
+translated loop the first one in sorted-name order) -/
+def ErrsEqual (doc : Doc) : Prop := ∀ h ∈ doc.hdrs, ∀ h' ∈ doc.hdrs, ∀ c c', h.2 = .err c → h'.2 = .err c' → c = c'
+
+theorem errsEqual_class (doc : Doc) (h : ErrsEqual doc) : ∃ c0, ∀ x ∈ doc.hdrs, ∀ c, x.2 = .err c → c = c0 := by
+  by_cases hex : ∃ x ∈ doc.hdrs, ∃ c, x.2 = .err c
+  · obtain ⟨x, hx, c, hc⟩ := hex
+    exact ⟨c, fun y hy c' hc' => h y hy x hx c' c hc' hc⟩
+  · exact ⟨[], fun y hy c' hc' => absurd ⟨y, hy, c', hc'⟩ hex⟩
+
+/-- `parseEmail`: the first `decode_header` error in document order, or the loop and the tail -/
+theorem parseEmail_cases (doc : Doc) (order : List Str) :
+    (∃ x ∈ doc.hdrs, ∃ c, x.2 = .err c ∧ parseEmail doc order = .error c) ∨
+    ((∀ x ∈ doc.hdrs, errCls x.2 = none) ∧ parseEmail doc order = parseTail doc (headerLoop doc order)) := by
+  unfold parseEmail parseTail
+  split
+  · rename_i c hc
+    obtain ⟨x, hx, hxc⟩ := List.exists_of_findSome?_eq_some hc
+    refine .inl ⟨x, hx, c, ?_, rfl⟩
+    cases hx2 : x.2 <;> simp [hx2] at hxc
+    rw [hxc]
+  · rename_i hc
+    refine .inr ⟨fun x hx => ?_, rfl⟩
+    have := List.findSome?_eq_none_iff.mp hc x hx
+    cases hx2 : x.2 <;> simp [hx2, errCls] at this ⊢
+
+theorem mem_getAll (doc : Doc) (ln : Str) (hv : HVal) (h : hv ∈ getAll doc ln) : ∃ x ∈ doc.hdrs, x.2 = hv := by
+  simp only [getAll, List.mem_map, List.mem_filter] at h
+  obtain ⟨x, ⟨hx, _⟩, rfl⟩ := h
+  exact ⟨x, hx, rfl⟩
+
+theorem getAll_noErr (doc : Doc) (hno : ∀ x ∈ doc.hdrs, errCls x.2 = none) (ln : Str) :
+    (getAll doc ln).findSome? errCls = none := by
+  rw [List.findSome?_eq_none_iff]
+  intro hv hm
+  obtain ⟨x, hx, rfl⟩ := mem_getAll doc ln hv hm
+  exact hno x hx
+
+theorem getAll_ok (doc : Doc) (h : ChunksOK doc) (ln : Str) : ∀ hv ∈ getAll doc ln, HValOK hv := by
+  intro hv hm
+  obtain ⟨x, hx, rfl⟩ := mem_getAll doc ln hv hm
+  cases hx2 : x.2 with
+  | hdr cs => exact h x hx cs hx2
+  | str s => trivial
+  | err c => trivial
+
+theorem mem_orderOf' (doc : Doc) (x : Str × HVal) (hx : x ∈ doc.hdrs) : x.1 ∈ orderOf doc := by
+  apply (orderOf_perm doc).mem_iff.mpr
+  rw [Meta.mem_dedup]
+  exact List.mem_map.mpr ⟨x, hx, rfl⟩
+
+theorem getAll_hasErr (doc : Doc) (x : Str × HVal) (hx : x ∈ doc.hdrs) (c : Str) (hc : x.2 = .err c) :
+    ¬ (getAll doc (lowerStr x.1)).findSome? errCls = none := by
+  intro h
+  have := List.findSome?_eq_none_iff.mp h x.2 (by
+    simp only [getAll, List.mem_map, List.mem_filter]
+    exact ⟨x, ⟨hx, by simp⟩, rfl⟩)
+  rw [hc] at this
+  simp [errCls] at this
+
+theorem x9_isinst_hdr3 (fs : List (String × PyVal)) : isinstance (.obj "Header" fs) ["Header", "HeaderErr", "str"] = true := by rfl
+theorem x9_isinst_hdr2 (fs : List (String × PyVal)) : isinstance (.obj "Header" fs) ["Header", "HeaderErr"] = true := by rfl
+theorem x9_isinst_err3 (fs : List (String × PyVal)) : isinstance (.obj "HeaderErr" fs) ["Header", "HeaderErr", "str"] = true := by rfl
+theorem x9_isinst_err2 (fs : List (String × PyVal)) : isinstance (.obj "HeaderErr" fs) ["Header", "HeaderErr"] = true := by rfl
+theorem decode_header_err (c : Str) : decode_header (.obj "HeaderErr" [("cls", .str c)]) = .error (toStringLossy c) := by rfl
+theorem decode_header_hdr (cs : List (List Nat)) :
+    decode_header (.obj "Header" [("chunks", .list (cs.map PyElf.ofBytes))]) =
+      .ok (.list (cs.map fun b => PyVal.tuple [PyElf.ofBytes b, .none])) := by
+  simp [decode_header, lookupField, List.map_map, Function.comp_def]
+theorem unpack2_tuple2 (a b : PyVal) : unpack2 (.tuple [a, b]) = .ok (a, b) := by rfl
+theorem catches_ude : catches "UnicodeDecodeError" "UnicodeDecodeError" = true := by decide
+
+set_option maxHeartbeats 2000000 in
+/-- **`parse_email` = `Email.parseEmail`** for every document: for `str` and for `bytes` input and every oracle `ext` that
+
+* answers the standard-library parser call (the key is the source text of the call) with a message value presenting `doc`
+  (`MsgRel`), and
+* answers `str.lower` on header names like the ASCII `lowerStr` the model uses,
+
+where the chunks of `Header` values are bytes (`ChunksOK`) and all `decode_header` failures raise the same class (`ErrsEqual`:
+the model raises the first one in document order, the translated loop the first one in sorted-name order), the translated
+function returns two dicts that agree look-up by look-up (`DictRel`, `UnparsedRel`) with the model's result for the visiting
+order `orderOf doc` (a permutation of the distinct header names: `orderOf_perm`), or raises the model's exception class. -/
+theorem parse_email_eq_model (ext : PyRt.Oracle) (data m : PyVal) (doc : Doc) (isStr : Bool)
     (hdata : if isStr then ∃ s, data = .str s else ∃ b, data = PyElf.ofBytes b)
     (hext : ext (if isStr then "email.parser.Parser(policy=email.policy.compat32).parsestr(_, headersonly=True)"
       else "email.parser.BytesParser(policy=email.policy.compat32).parsebytes(_, headersonly=True)") [data] = .ok m)
     (hm : MsgRel m doc isStr)
     (hlower : ∀ s, ext "str.lower" [.str s] = .ok (.str (lowerStr s)))
-    (hstr : StrOnly doc) :
+    (hchunks : ChunksOK doc) (herrs : ErrsEqual doc) :
     match parseEmail doc (orderOf doc) with
     | .ok (d, u) => ∃ r un, Gen.PySrc.parse_email ext data = .ok (.tuple [.dict r, .dict un]) ∧ DictRel r d ∧ UnparsedRel un u
     | .error c => Gen.PySrc.parse_email ext data = .error (toStringLossy c) := by
@@ -807,27 +1080,70 @@ theorem parse_email_eq_model_partial (ext : PyRt.Oracle) (data m : PyVal) (doc :
     simp only [PyRx.setItems, PyRx.mkSet, PySet.sorted_, strsOf_strs, pure_ok, ok_bind, orderOf]
   unfold Gen.PySrc.parse_email
   simp only [hinst, truthy_bool, ite_bind_same, hparse, ok_bind, msg_keys_enc fs doc hh, hset, hsorted, iterate_list]
-  refine outer_forIn_bind (σ := PyVal × PyVal × PyVal × PyVal × PyVal × PyVal × PyVal × PyVal × PyVal)
-    (fun s => s.2.2.2.2.2.2.2.1) (fun s => s.2.2.2.2.2.2.2.2) _ _ doc
+  obtain ⟨c0, hc0⟩ := errsEqual_class doc herrs
+  refine outer_forIn_err_bind (σ := PyVal × PyVal × PyVal × PyVal × PyVal × PyVal × PyVal × PyVal × PyVal)
+    (fun s => s.2.2.2.2.2.2.2.1) (fun s => s.2.2.2.2.2.2.2.2) _ _ doc (toStringLossy c0)
     (fun x => match parseEmail doc (orderOf doc) with
       | .ok (d, u) => ∃ r un, x = .ok (.tuple [.dict r, .dict un]) ∧ DictRel r d ∧ UnparsedRel un u
       | .error c => x = .error (toStringLossy c)) (orderOf doc) _ ([], []) ?hstep (mem_orderOf doc)
-      ⟨[], [], rfl, rfl, ARel_nil _, ARel_nil _⟩ ?hk
+      ⟨[], [], rfl, rfl, ARel_nil _, ARel_nil _⟩ ?herr ?hk
+  case herr =>
+    intro hex
+    rcases parseEmail_cases doc (orderOf doc) with ⟨x, hx, c, hxc, hpe⟩ | ⟨hno, _⟩
+    · rw [hpe]
+      simp only [hc0 x hx c hxc]
+    · exact absurd (fun n _ => getAll_noErr doc hno (lowerStr n)) hex
   case hstep =>
     intro n s acc hn hs
     obtain ⟨r, u, hr, hu, hdr, hur⟩ := hs
     simp only [hlower, ext_call, ok_bind, msg_get_all_enc fs doc n hh, iterate_list]
-    refine inner_forIn_bind (σ := PyVal × PyVal × PyVal × PyVal) (fun s => s.1) (fun s => s.2.1) _ _ (fun hv => ∃ t, hv = .str t)
-      (fun x => ∃ s', x = .ok (.yield s') ∧ StRel _ _ s' (step doc acc n)) (getAll doc (lowerStr n)) _ ?hin
-      (getAll_strOnly doc hstr _) rfl rfl ?hk2
+    refine inner_forIn_err_bind (σ := PyVal × PyVal × PyVal × PyVal) (fun s => s.1) (fun s => s.2.1) _ _ HValOK
+      (fun (x : M (ForInStep St9)) => if (getAll doc (lowerStr n)).findSome? errCls = none then
+          ∃ s', x = .ok (.yield s') ∧ StRel (fun s : St9 => s.2.2.2.2.2.2.2.1) (fun s : St9 => s.2.2.2.2.2.2.2.2) s' (step doc acc n)
+        else x = .error (toStringLossy c0)) (getAll doc (lowerStr n)) _ ?hin
+      (getAll_ok doc hchunks _) rfl rfl ?herr2 ?hk2
+    case herr2 =>
+      intro c hc
+      rw [if_neg (by rw [hc]; simp)]
+      obtain ⟨hv, hvm, hve⟩ := List.exists_of_findSome?_eq_some hc
+      obtain ⟨x, hx, hxv⟩ := mem_getAll doc _ hv hvm
+      have : hv = .err c := by cases hv <;> simp [errCls] at hve; rw [hve]
+      rw [hc0 x hx c (hxv.trans this)]
     case hin =>
-      intro hv s vs ok ⟨t, ht⟩ h1 h2
-      subst ht
-      simp only [encHVal, x9_isinst_str3, x9_isinst_str2, Bool.not_true, Bool.false_eq_true, if_false, h1, list_append_list,
-        ok_bind, pure_ok]
-      exact ⟨_, rfl, by simp [decodeVal], by simp [decodeVal, h2]⟩
+      intro hv s vs ok hP h1 h2
+      cases hv with
+      | str t =>
+        simp only [errCls, encHVal, x9_isinst_str3, x9_isinst_str2, Bool.not_true, Bool.false_eq_true, if_false, h1, list_append_list,
+          ok_bind, pure_ok]
+        exact ⟨_, rfl, by simp [decodeVal], by simp [decodeVal, h2]⟩
+      | err c =>
+        simp only [errCls, encHVal, x9_isinst_err3, x9_isinst_err2, Bool.not_true, Bool.false_eq_true, if_false, if_true,
+          decode_header_err, err_bind]
+      | hdr cs =>
+        simp only [errCls, encHVal, x9_isinst_hdr3, x9_isinst_hdr2, Bool.not_true, Bool.false_eq_true, if_false, if_true,
+          decode_header_hdr, ok_bind, iterate_list]
+        refine chunk_forIn_bind (σ := PyVal × PyVal × PyVal) (fun s => s.1) (fun s => s.2.1) _ _
+          (fun (x : M (ForInStep St4)) => ∃ s', x = .ok (.yield s') ∧
+            s'.1 = .list ((vs ++ [(decodeVal (.hdr cs)).1]).map .str) ∧ s'.2.1 = .bool (ok && (decodeVal (.hdr cs)).2))
+          cs _ ok ?hch hP h2 rfl ?hk3
+        case hch =>
+          intro b s cs ok hb h1 h2
+          simp only [unpack2_tuple2, ok_bind, bytes_decode_utf8, PyElf.bytesOf_ofBytes b hb]
+          cases hd : utf8Decode b with
+          | some t =>
+            simp only [pure_ok, ok_bind, tryCatch_ok, tryCatch_ok', if_true, h2, list_append_list]
+            exact ⟨_, rfl, by simp [decodeChunk, hd, h1], by simp [encChunk, decodeChunk, hd]⟩
+          | none =>
+            simp only [throw_err, err_bind, tryCatch_err, tryCatch_err', catches_ude, if_true, pure_ok, ok_bind, Bool.false_eq_true, if_false,
+              h2, list_append_list]
+            exact ⟨_, rfl, by simp [decodeChunk, hd], by simp [encChunk, decodeChunk, hd]⟩
+        case hk3 =>
+          intro s' hv1 hv2
+          simp only [hv2, make_header_str_enc cs hP, ok_bind, h1, list_append_list, pure_ok]
+          exact ⟨_, rfl, by simp [decodeVal], by simp [decodeVal, hv1]⟩
     case hk2 =>
-      intro s' hval hvalid
+      intro hnone s' hval hvalid
+      rw [if_pos hnone]
       simp only at hval hvalid hr hu
       simp only [hval, hvalid, hr, hu, truthy_bool]
       simp only [step, classify_eq]
@@ -871,10 +1187,14 @@ theorem parse_email_eq_model_partial (ext : PyRt.Oracle) (data m : PyVal) (doc :
             | exact ⟨_, rfl, _, _, rfl, rfl, raw_set hdr rn (.dict _), hur⟩
             | skip
   case hk =>
-    intro s' hs'
+    intro hall s' hs'
     obtain ⟨r, u, hr, hu, hdr, hur⟩ := hs'
     simp only at hr hu
-    simp only [hrun, hr, hu, parseEmail_strOnly doc hstr, parseTail_eq, desc_key]
+    have hpe : parseEmail doc (orderOf doc) = parseTail doc (headerLoop doc (orderOf doc)) := by
+      rcases parseEmail_cases doc (orderOf doc) with ⟨x, hx, c, hxc, _⟩ | ⟨_, hpe⟩
+      · exact absurd (hall x.1 (mem_orderOf' doc x hx)) (getAll_hasErr doc x hx c hxc)
+      · exact hpe
+    simp only [hrun, hr, hu, hpe, parseTail_eq, desc_key]
     have hds := headerLoop_descStr doc (orderOf doc)
     change DictRel r (headerLoop doc (orderOf doc)).1 at hdr
     change UnparsedRel u (headerLoop doc (orderOf doc)).2 at hur
@@ -959,19 +1279,47 @@ theorem parse_email_eq_model_partial (ext : PyRt.Oracle) (data m : PyVal) (doc :
               exact ⟨_, _, rfl, hdr, hrel2⟩
           · cases h1
 
-/-- the hypotheses of `parse_email_eq_model_partial` can be met -/
+
+/-- the special case without `Header` objects (kept under its first name): a corollary of `parse_email_eq_model` -/
+theorem parse_email_eq_model_partial (ext : PyRt.Oracle) (data m : PyVal) (doc : Doc) (isStr : Bool)
+    (hdata : if isStr then ∃ s, data = .str s else ∃ b, data = PyElf.ofBytes b)
+    (hext : ext (if isStr then "email.parser.Parser(policy=email.policy.compat32).parsestr(_, headersonly=True)"
+      else "email.parser.BytesParser(policy=email.policy.compat32).parsebytes(_, headersonly=True)") [data] = .ok m)
+    (hm : MsgRel m doc isStr)
+    (hlower : ∀ s, ext "str.lower" [.str s] = .ok (.str (lowerStr s)))
+    (hstr : StrOnly doc) :
+    match parseEmail doc (orderOf doc) with
+    | .ok (d, u) => ∃ r un, Gen.PySrc.parse_email ext data = .ok (.tuple [.dict r, .dict un]) ∧ DictRel r d ∧ UnparsedRel un u
+    | .error c => Gen.PySrc.parse_email ext data = .error (toStringLossy c) := by
+  refine parse_email_eq_model ext data m doc isStr hdata hext hm hlower ?_ ?_
+  · intro h hh cs hcs
+    obtain ⟨s, hs⟩ := hstr h hh
+    rw [hs] at hcs; cases hcs
+  · intro h hh h' hh' c c' hc _
+    obtain ⟨s, hs⟩ := hstr h hh
+    rw [hs] at hc; cases hc
+
+/-- the hypotheses of `parse_email_eq_model` can be met (a `str` header, a `Header` object with an undecodable chunk, a body) -/
 example : ∃ (ext : PyRt.Oracle) (data m : PyVal) (doc : Doc),
     (∃ s, data = .str s) ∧
     ext "email.parser.Parser(policy=email.policy.compat32).parsestr(_, headersonly=True)" [data] = .ok m ∧
-    MsgRel m doc true ∧ (∀ s, ext "str.lower" [.str s] = .ok (.str (lowerStr s))) ∧ StrOnly doc ∧ doc.hdrs ≠ [] := by
-  let doc : Doc := ⟨[(ofString "Name", .str (ofString "foo"))], .str (ofString "body")⟩
+    MsgRel m doc true ∧ (∀ s, ext "str.lower" [.str s] = .ok (.str (lowerStr s))) ∧ ChunksOK doc ∧ ErrsEqual doc ∧
+    doc.hdrs.length = 2 := by
+  let doc : Doc := ⟨[(ofString "Name", .str (ofString "foo")), (ofString "Summary", .hdr [[255], [97]])], .str (ofString "body")⟩
   let m : PyVal := .obj "Message" [("headers", .list (encHdrs doc)), ("payload", .str (ofString "body"))]
   refine ⟨fun k args => if k = "str.lower" then (match args with | [.str s] => .ok (.str (lowerStr s)) | _ => .error "TypeError") else .ok m,
-    .str [], m, doc, ⟨[], rfl⟩, by simp, ⟨_, rfl, by simp [m], ?_⟩, fun s => by simp, ?_, by simp [doc]⟩
+    .str [], m, doc, ⟨[], rfl⟩, by simp, ⟨_, rfl, by simp [m], ?_⟩, fun s => by simp, ?_, ?_, rfl⟩
   · simp only [if_true]
     exact ⟨.str (ofString "body"), by simp [m], .inl ⟨ofString "body", rfl, rfl⟩⟩
-  · intro h hh
-    simp only [doc, List.mem_singleton] at hh
-    exact ⟨ofString "foo", by rw [hh]⟩
+  · intro h hh cs hcs b hb x hx
+    simp only [doc, List.mem_cons, List.not_mem_nil, or_false] at hh
+    rcases hh with rfl | rfl
+    · cases hcs
+    · cases hcs
+      simp only [List.mem_cons, List.not_mem_nil, or_false] at hb
+      rcases hb with rfl | rfl <;> simp only [List.mem_singleton] at hx <;> omega
+  · intro h hh h' hh' c c' hc _
+    simp only [doc, List.mem_cons, List.not_mem_nil, or_false] at hh
+    rcases hh with rfl | rfl <;> cases hc
 
 end Src
